@@ -44,6 +44,7 @@ func verifC05p(ncols int, planner migrate.PlanApplier) {
 	t := schema.NewTable("t").SetSchema(sch)
 	var specs []verifColSpec
 	var changes []schema.Change
+	var autoCol *schema.Column
 	for i := 0; i < ncols; i++ {
 		name := string(rune('a' + i))
 		c := schema.NewIntColumn(name, "integer")
@@ -53,6 +54,14 @@ func verifC05p(ncols int, planner migrate.PlanApplier) {
 		}
 		sp := verifColSpec{name: name, kind: verifChoice(fmt.Sprintf("kind%d", i), 5)}
 		switch sp.kind {
+		case 0:
+			// an unchanged column may be the AUTOINCREMENT key: its values are data like any other
+			if i == 0 && verifChoice("autoincrement", 2) == 1 {
+				c.AddAttrs(&AutoIncrement{})
+				c.Type.Null = false
+				c.Default = nil
+				autoCol = c
+			}
 		case 1:
 			changes = append(changes, &schema.AddColumn{C: c})
 		case 2:
@@ -72,6 +81,9 @@ func verifC05p(ncols int, planner migrate.PlanApplier) {
 		}
 		t.AddColumns(c)
 		specs = append(specs, sp)
+	}
+	if autoCol != nil {
+		t.SetPrimaryKey(schema.NewPrimaryKey(autoCol).AddAttrs(&AutoIncrement{}))
 	}
 	// optionally a dropped column of the old table, and an index change
 	dropped := verifChoice("dropped", 2) == 1
